@@ -855,6 +855,17 @@ def _rebase_symmetry(ck, p, rule, byk, lf, lcfg, lpv, gets, puts):
             apps = [(bi, t) for bi, t in g.calls() if method(t) in ("append", "extend") and bi > 0 and _is_results(g, gpv, t)]
             pull_h, push_h = loop_head(pulls[0][0]), loop_head(pushes[0][0])
             before_put = gcfg.dominates(pull_h, puts[0][0]) and pull_h != puts[0][0]
+            if not before_put:
+                # shift fused into the collecting loop: every element pushed onto the vector that put() stores is shifted first
+                from .c13 import _base_local
+                stored = _base_local(g, gpv, puts[0][1]["args"][2]) if len(puts[0][1]["args"]) > 2 else None
+                srcs = {stored}
+                for (b_, si_, k_, x_) in gpv.defs.get(stored, []):
+                    if k_ == "call" and method(x_) == "clone" and x_["args"]:
+                        srcs.add(_base_local(g, gpv, x_["args"][0]))
+                adds = [(bi_, t_) for bi_, t_ in g.calls() if method(t_) in ("push", "extend", "append", "insert") and t_["args"] and _base_local(g, gpv, t_["args"][0]) in srcs]
+                if adds and all(gcfg.dominates(pulls[0][0], bi_) and method(t_) == "push" for bi_, t_ in adds):
+                    before_put = True
             after_put = gcfg.every_path_passes(puts[0][0], [push_h], to=[x for x, _ in apps])[0]
             after_hit = gcfg.every_path_passes(gets[0][0], [push_h], to=[x for x, _ in apps])[0]
             if not (after_put and after_hit) and pushes[0][1].get("_closure"):
